@@ -5,3 +5,5 @@ import TransportVerif.Props.C12
 #print axioms TV.Props.C12.unaccepted_discarded
 #print axioms TV.Props.C12.no_new_conn_after_close
 #print axioms TV.Props.C12.no_close_stuck
+#print axioms TV.Props.C12.inflight_arrival_discarded
+#print axioms TV.Props.C12.lock_steps_wait
